@@ -421,6 +421,34 @@ fn l1_connect(rep: &Reporter, args: &Args) {
                 }
             }
         }
+        // "the address it connects to is the very address that passed the check": IPv6 literals that *embed* a private IPv4
+        // address in a form the policy may well classify as global (IPv4-compatible ::a.b.c.d, NAT64, 6to4). Whatever the
+        // verdict, a connection attempt must go to the literal itself - never to the embedded IPv4 address (the canary
+        // listens on 127.0.0.1 at this port).
+        {
+            let ctx = env::make_ctx(&dir, env::CtxOpts { allow_private: false, ipv6_available: true, ..Default::default() });
+            vnet::set_refuse_real_connect(false);
+            for lit in ["::7f00:1", "::127.0.0.1", "::a00:5", "::a9fe:a9fe", "::c0a8:101", "64:ff9b::7f00:1", "2002:7f00:1::1", "::ffff:0:7f00:1", "2606:2800:220:1::7f00:1"] {
+                let ip: std::net::IpAddr = lit.parse().unwrap();
+                let want = SocketAddr::new(ip, p4);
+                // real connection attempts only where the embedded address is the canary's (the others are observed at the
+                // connector's door and refused there: an unroutable destination costs seconds)
+                vnet::set_refuse_real_connect(!(lit == "::7f00:1" || lit == "::127.0.0.1" || lit == "64:ff9b::7f00:1"));
+                for (dest, form) in [(Dest::Address(want), "authority"), (Dest::HostName(lit.to_string(), p4), "address literal handed over as a host name")] {
+                    let before = accepted.load(std::sync::atomic::Ordering::SeqCst);
+                    let Ok((r, connects)) = tokio::time::timeout(std::time::Duration::from_secs(5), connect_case(&ctx, dest)).await else { rep.inconclusive("connect watchdog"); continue };
+                    tokio::time::sleep(std::time::Duration::from_millis(2)).await;
+                    let after = accepted.load(std::sync::atomic::Ordering::SeqCst);
+                    rep.evals(1);
+                    rep.distinct(common::fnv(format!("embedded|{lit}|{form}").as_bytes()));
+                    let case = json!({"kind":"connect","spelling":format!("[{}]:{}", lit, p4),"handed_over_as":form,"allow_private":false,"ipv6_available":true,"result":describe(&r),
+                        "connects":connects.iter().map(|a| a.to_string()).collect::<Vec<_>>(),"canary_accepts":after - before});
+                    let elsewhere = connects.iter().any(|a| a.ip().to_canonical() != ip.to_canonical() || a.port() != p4);
+                    if after != before || elsewhere { rep.violation("connection attempted to an address other than the one that was checked (IPv6 literal embedding an IPv4 address)", case); }
+                    else { rep.tally(&format!("l1 embedded-IPv4 literal: {}", if connects.is_empty() { "refused, nothing attempted" } else { "attempt went to the literal itself" }), 1); }
+                }
+            }
+        }
         // sanity: the canary is reachable when the policy allows it (so "no accept" means something)
         if accepted.load(std::sync::atomic::Ordering::SeqCst) == 0 {
             rep.inconclusive("canary never accepted even with allow_private=true");
